@@ -137,6 +137,8 @@ def execute(cfg, chooser, want_trace=False):
         for i in range(n_ab):
             if not cli.send(message('a', i, cfg['size'])):
                 return 'send-false@%d' % i
+        if cfg.get('extra') == 'close':
+            cli.close()          # messages accepted before must still arrive
         return 'sent'
 
     def b_main():
@@ -149,6 +151,8 @@ def execute(cfg, chooser, want_trace=False):
             out['got_b'].append(m)
             if m is None:
                 return 'closed@%d' % i
+        if cfg.get('extra') == 'close':
+            out['after_close'] = conn.recv()      # None once the peer closed
         return 'rcvd'
 
     def b_send():
@@ -206,6 +210,10 @@ def judge(cfg, s, out, wire):
             bad.append(('delivery|b->a|%s' % delivery_class(out['got_a'],
                                                              want_a),
                         dict(got=out['got_a'], want=want_a)))
+    if cfg.get('extra') == 'close' and s.verdict == 'finished' and \
+            out.get('after_close', None) is not None:
+        bad.append(('delivery|after-close|data-after-disconnect',
+                    dict(got=out.get('after_close'))))
     for name, res in sorted(out['threads'].items()):
         if res[0] == 'exc':
             bad.append(('thread-raises|%s|%s' % (name, sig_exc(res[1])),
@@ -285,6 +293,8 @@ def configs(tier):
                             traced=traced))
         out.append(dict(rw=(1, 1), n=(3, 0), agf=True, miu=128, size=128,
                         extra='busy', traced=traced))
+        out.append(dict(rw=(2, 1), n=(3, 0), agf=True, miu=128, size=20,
+                        extra='close', traced=traced))
         return out
     for rw in ((1, 1), (2, 1), (1, 2), (2, 2)):
         for n in ((3, 0), (2, 2)):
@@ -294,6 +304,9 @@ def configs(tier):
     for rw in ((1, 1), (2, 2)):
         out.append(dict(rw=rw, n=(3, 0), agf=True, miu=128, size=128,
                         extra='busy', traced=traced))
+    for rw in ((1, 1), (2, 2)):
+        out.append(dict(rw=rw, n=(3, 0), agf=rw == (1, 1), miu=128, size=20,
+                        extra='close', traced=traced))
     out.append(dict(rw=(2, 2), n=(4, 3), agf=True, miu=129, size=129,
                     traced=traced))
     out.append(dict(rw=(3, 3), n=(4, 0), agf=False, miu=128, size=1,
